@@ -550,3 +550,16 @@ VARIANTS += [
 VARIANTS += [
     V("C08", "docstring package searched on the module search path again (explicitly)", DP, "load(package_path.name, search_paths=[package_path.parent], docstring_parser=parser)", "load(package_path.name, search_paths=[package_path.parent, *sys.path], docstring_parser=parser)", "C08.AMBIENT"),
 ]
+VARIANTS += [
+    V("C12", "the finiteness test is evaluated but the infinite float is kept", VIS, "                    return UnknownValue(), default_is_none\n                elif isinstance(inferred_default_value, bool | int | float | NoneType):", "                    logging.warning(\"infinite default\")\n                if isinstance(inferred_default_value, bool | int | float | NoneType):", "C12.STORES"),
+    V("C06", "type from the default depends on the docstring through a flag", VIS, "                if arg_type is None and (default_is_none or default_value is not None):\n                    arg_type = mypy_expression_to_sds_type(initializer)", "                docstring = self.docstring_parser.get_parameter_documentation(function_qname=node.fullname, parameter_name=argument.variable.name, parent_class_qname=\"\")\n                has_documented_type = docstring.type is not None\n                if arg_type is None and not has_documented_type and (default_is_none or default_value is not None):\n                    arg_type = mypy_expression_to_sds_type(initializer)", "C06.ONE-PER-PARAM"),
+]
+VARIANTS += [
+    V("C09", "digit test on the last character", HELP, "    if converted_name[:1].isdigit():", "    if converted_name[-1:].isdigit():", "C09.CONVERT-SHAPE"),
+]
+VARIANTS += [
+    V("C09", "benign: digit test on the first character with an emptiness test", HELP, "    if converted_name[:1].isdigit():", "    if converted_name and converted_name[0].isdigit():", None),
+    V("C08", "benign: file list sorted in place", GA, '    for file_path in sorted(root.glob(pattern="./**/*.py")):', '    python_files = list(root.glob(pattern="./**/*.py"))\n    python_files.sort()\n    for file_path in python_files:', None),
+    V("C01", "benign: alias guard split into nested ifs", VIS, "        if isinstance(mypy_type, mp_types.TypeAliasType) and not mypy_type.is_recursive:\n            mypy_type = mp_types.get_proper_type(mypy_type)\n", "        if isinstance(mypy_type, mp_types.TypeAliasType):\n            if not mypy_type.is_recursive:\n                mypy_type = mp_types.get_proper_type(mypy_type)\n", None),
+    V("C07", "benign: unbound name compared with the empty string", MH, "        elif not expr.fullname:", '        elif expr.fullname == "":', None),
+]
